@@ -40,7 +40,7 @@ def make_obs(ctx):
     for (nl, ll, ch, sl) in cfgs:
         d = {'VERIF_MAX_NLINES': nl, 'VERIF_MAX_LLEN': ll, 'VERIF_CHUNK_SIZE': ch, 'SLEN': sl, 'NREADS': sl}
         obs.append(Ob('chunking:win%dx%d:chunk%d:stream%d' % (nl, ll, ch, sl), 'C18_chunk.c', 'h_chunking', d,
-                      unwind=sl + 4, mem=True, replay='asan', group='chunking', timeout=1500 if ctx.tier == 'quick' else 14400,
+                      unwind=sl + 4, mem=True, replay='asan', group='chunking', memgb=10, timeout=1500 if ctx.tier == 'quick' else 14400,
                       unwindset=['%s:%d' % (ctx.loops['lines'], nl + 2), '%s:%d' % (ctx.loops['reads'], sl + 3),
                                  '%s:%d' % (ctx.loops['consume'], nl + 2)],
                       bounds={'window': '%d lines x %d bytes = %d bytes (scaled through the DATEUTILS_VERIF hook)' % (nl, ll, nl * ll),
